@@ -123,7 +123,7 @@ def failKey (st : S) (op : Op) (ob : Obs) : String :=
   match ob with
   | .r o => s!"codec.read.{rkey o}"
   | .w o => s!"codec.write.{wkey o}"
-  | .wr w r => if (pumpWrite st w).isNone then s!"codec.write.{wkey w}" else s!"codec.read.{rkey r}"
+  | .wr w r => if (onPumpWrite st w).isNone then s!"codec.write.{wkey w}" else s!"codec.read.{rkey r}"
   | .ok => s!"codec.{opName op}"
 
 structure Group where
